@@ -31,6 +31,16 @@ type schedule struct {
 	RestartAt  int   `json:"restart_at,omitempty"` // restart the index before this position (0 = never)
 	Goroutines int   `json:"goroutines,omitempty"` // >1: the order is dealt round-robin to concurrent deliverers
 	JitterSeed int64 `json:"jitter_seed,omitempty"`
+	// Redeliver: pairs {p, q} with q >= p: the blob at position p is delivered once more right
+	// after position q (a late duplicate: the blob may meanwhile be pending, re-indexed or indexed).
+	Redeliver [][2]int `json:"redeliver,omitempty"`
+	// Lanes: explicit concurrent deliverers, each a list of positions; a position may occur in
+	// several lanes (the same blob uploaded by several clients at once).  With RestartAt > 0 the
+	// lanes first deliver their positions < RestartAt, then the index is re-opened, then the rest.
+	Lanes [][]int `json:"lanes,omitempty"`
+	// LiveReindex: after quiescence Reindex() is called on this (non-fresh) index and the rows are
+	// compared once more.
+	LiveReindex bool `json:"live_reindex,omitempty"`
 }
 
 type delaySrc struct {
@@ -46,9 +56,34 @@ func (d *delaySrc) Fetch(ctx context.Context, br blob.Ref) (io.ReadCloser, uint3
 }
 
 type result struct {
-	dump                    []string
-	needs, neededBy, ready  int
-	err                     error
+	dump                   []string
+	needs, neededBy, ready int
+	err                    error
+	// after LiveReindex
+	reDump                       []string
+	reNeeds, reNeededBy, reReady int
+	reErr                        error
+	badBeforeKey                 bool // a blob with an invalid signature was delivered before its key
+}
+
+// tolerable reports whether a delivery error of b is within what the property allows: a blob
+// with an invalid signature may be refused (it is, once its key is known).
+func tolerable(w *hw.World, b sto.Blob) bool { return w.Bad[b.Ref] }
+
+// reindexErrOK: Reindex reports blobs that are still waiting for a dependency, and blobs that
+// cannot be indexed (invalid signature), as an error; the rows are what is compared.
+func reindexErrOK(w *hw.World, err error) bool {
+	if err == nil {
+		return true
+	}
+	msg := err.Error()
+	if strings.Contains(msg, "still needed") {
+		return true
+	}
+	if len(w.Bad) > 0 && (strings.Contains(msg, "failed to re-index") || strings.Contains(msg, "ready to reindex")) {
+		return true
+	}
+	return false
 }
 
 // execute runs one schedule on a fresh index over a fresh memory KV.
@@ -79,19 +114,111 @@ func execute(w *hw.World, sc schedule, kvKind string, dir string) (res result) {
 	for _, d := range sc.Dups {
 		dup[d] = true
 	}
-	deliver := func(pos int) error {
+	var xmu sync.RWMutex // guards x against the restart in lanes mode
+	deliver1 := func(pos int, what string) error {
 		b := w.Blobs[sc.Order[pos]]
-		if err := x.Deliver(b); err != nil {
-			return fmt.Errorf("deliver #%d %v (%s): %w", pos, b.Ref, w.Kind[b.Ref], err)
+		xmu.RLock()
+		cur := x
+		xmu.RUnlock()
+		if err := cur.Deliver(b); err != nil && !tolerable(w, b) {
+			return fmt.Errorf("%s #%d %v (%s): %w", what, pos, b.Ref, w.Kind[b.Ref], err)
+		}
+		return nil
+	}
+	redeliver := map[int][]int{}
+	for _, pq := range sc.Redeliver {
+		redeliver[pq[1]] = append(redeliver[pq[1]], pq[0])
+	}
+	deliver := func(pos int) error {
+		if err := deliver1(pos, "deliver"); err != nil {
+			return err
 		}
 		if dup[pos] {
-			if err := x.Deliver(b); err != nil {
-				return fmt.Errorf("duplicate deliver #%d %v: %w", pos, b.Ref, err)
+			if err := deliver1(pos, "duplicate deliver"); err != nil {
+				return err
+			}
+		}
+		for _, p := range redeliver[pos] {
+			if err := deliver1(p, fmt.Sprintf("late duplicate (after #%d) deliver", pos)); err != nil {
+				return err
 			}
 		}
 		return nil
 	}
-	if sc.Goroutines > 1 {
+	if len(w.Bad) > 0 {
+		seenKey := map[blob.Ref]bool{}
+		for _, i := range sc.Order {
+			b := w.Blobs[i]
+			if w.Kind[b.Ref] == "key" {
+				seenKey[b.Ref] = true
+			}
+			if w.Bad[b.Ref] {
+				for _, d := range w.Deps[b.Ref] {
+					if w.Kind[d] == "key" && !seenKey[d] {
+						res.badBeforeKey = true
+					}
+				}
+			}
+		}
+	}
+	runLanes := func(lanes [][]int) error {
+		var wg sync.WaitGroup
+		errs := make([]error, len(lanes))
+		for g := range lanes {
+			wg.Add(1)
+			go func(g int) {
+				defer wg.Done()
+				for _, pos := range lanes[g] {
+					if err := deliver(pos); err != nil {
+						errs[g] = err
+						return
+					}
+				}
+			}(g)
+		}
+		wg.Wait()
+		for _, e := range errs {
+			if e != nil {
+				return e
+			}
+		}
+		return nil
+	}
+	if len(sc.Lanes) > 0 {
+		phases := [][][]int{sc.Lanes}
+		if sc.RestartAt > 0 {
+			var before, after [][]int
+			for _, l := range sc.Lanes {
+				var b, a []int
+				for _, pos := range l {
+					if pos < sc.RestartAt {
+						b = append(b, pos)
+					} else {
+						a = append(a, pos)
+					}
+				}
+				before, after = append(before, b), append(after, a)
+			}
+			phases = [][][]int{before, after}
+		}
+		for pi, ph := range phases {
+			if pi > 0 {
+				x.Quiesce()
+				x2, err := hw.NewIdx(kv, src, false)
+				if err != nil {
+					res.err = fmt.Errorf("restart: %w", err)
+					return
+				}
+				xmu.Lock()
+				x = x2
+				xmu.Unlock()
+			}
+			if err := runLanes(ph); err != nil {
+				res.err = err
+				return
+			}
+		}
+	} else if sc.Goroutines > 1 {
 		var wg sync.WaitGroup
 		errs := make([]error, sc.Goroutines)
 		for g := 0; g < sc.Goroutines; g++ {
@@ -133,6 +260,15 @@ func execute(w *hw.World, sc schedule, kvKind string, dir string) (res result) {
 	x.Quiesce()
 	res.needs, res.neededBy, res.ready = x.Index.VerifPending()
 	res.dump, res.err = hw.Dump(kv)
+	if res.err == nil && sc.LiveReindex {
+		res.reErr = x.Index.Reindex()
+		x.Quiesce()
+		res.reNeeds, res.reNeededBy, res.reReady = x.Index.VerifPending()
+		var err error
+		if res.reDump, err = hw.Dump(kv); err != nil && res.reErr == nil {
+			res.reErr = err
+		}
+	}
 	return
 }
 
@@ -170,11 +306,9 @@ func reindexDump(w *hw.World) ([]string, error) {
 	}
 	ix.KeyFetcher = ms
 	ix.InitBlobSource(ms)
-	if err := ix.Reindex(); err != nil {
-		// Reindex reports still-needed dependencies as an error; the rows are what we compare
-		if !strings.Contains(err.Error(), "still needed") {
-			return nil, err
-		}
+	if err := ix.Reindex(); !reindexErrOK(w, err) {
+		// Reindex reports still-needed dependencies (and un-indexable blobs) as an error; the rows are what we compare
+		return nil, err
 	}
 	return hw.Dump(kv)
 }
@@ -229,6 +363,7 @@ type caseRec struct {
 	Blobs    []string       `json:"blobs"`
 	Schedule schedule       `json:"schedule"`
 	KV       string         `json:"kv"`
+	Race     *raceSpec      `json:"race,omitempty"`
 }
 
 func blobList(w *hw.World) []string {
@@ -271,6 +406,7 @@ type job struct {
 	sc   schedule
 	kv   string
 	want []string // reference dump (nil: pending-world expectations instead)
+	race *raceSpec
 }
 
 func run(r *ev.Run) {
@@ -283,20 +419,32 @@ func run(r *ev.Run) {
 	jobs := make(chan job, 64)
 	var wg sync.WaitGroup
 	sampled := 0
+	sampledMode := map[string]int{}
 	for i := 0; i < 14; i++ {
 		wg.Add(1)
 		go func() {
 			defer wg.Done()
 			for j := range jobs {
-				res := execute(j.w, j.sc, j.kv, root)
+				var res result
+				if j.race != nil {
+					res = executeRace(r, j.w, j.race)
+				} else {
+					res = execute(j.w, j.sc, j.kv, root)
+				}
 				r.Eval(1)
-				rec := caseRec{CaseID: j.wid, World: j.w.Describe(), Blobs: blobList(j.w), Schedule: j.sc, KV: j.kv}
+				rec := caseRec{CaseID: j.wid, World: j.w.Describe(), Blobs: blobList(j.w), Schedule: j.sc, KV: j.kv, Race: j.race}
 				mode := "sequential"
 				switch {
+				case j.race != nil:
+					mode = "same-blob-race"
+				case len(j.sc.Lanes) > 0:
+					mode = "lanes"
 				case j.sc.Goroutines > 1:
 					mode = "concurrent"
 				case j.sc.RestartAt > 0:
 					mode = "restart"
+				case len(j.sc.Redeliver) > 0:
+					mode = "late-duplicates"
 				case len(j.sc.Dups) > 0:
 					mode = "duplicates"
 				}
@@ -304,13 +452,24 @@ func run(r *ev.Run) {
 				if j.sc.Prefill {
 					r.Note("schedule_modes", "prefilled-source")
 				}
-				r.Distinct(fmt.Sprintf("%s/%v", j.wid, j.sc))
+				if mode == "lanes" && j.sc.RestartAt > 0 {
+					r.Note("schedule_modes", "lanes-with-restart")
+				}
+				if res.badBeforeKey {
+					r.Note("schedule_modes", "bad-signature-before-key")
+				}
+				if j.race != nil {
+					r.Distinct(fmt.Sprintf("%s/race/%v", j.wid, *j.race))
+				} else {
+					r.Distinct(fmt.Sprintf("%s/%v", j.wid, j.sc))
+				}
 				if res.err != nil {
 					r.Violation("delivery-error/"+mode, fmt.Sprintf("world %s: %v", j.wid, res.err), rec)
 					continue
 				}
-				if res.ready != 0 {
-					r.Violation("ready-not-run/"+mode, fmt.Sprintf("world %s: %d blobs ready to reindex but never run after quiescence", j.wid, res.ready), rec)
+				// blobs that can never be indexed (invalid signature) may stay queued; nothing else may
+				if res.ready > len(j.w.Bad) {
+					r.Violation("ready-not-run/"+mode, fmt.Sprintf("world %s: %d blobs ready to reindex but never run after quiescence (only %d blobs of the set are un-indexable)", j.wid, res.ready, len(j.w.Bad)), rec)
 				}
 				onlyWant, onlyGot := diff(j.want, res.dump)
 				if len(onlyWant)+len(onlyGot) > 0 {
@@ -325,8 +484,29 @@ func run(r *ev.Run) {
 				} else if j.w.Dangling == nil && (res.needs != 0 || res.neededBy != 0) {
 					r.Violation("stale-pending/"+mode, fmt.Sprintf("world %s: complete set indexed but needs=%d neededBy=%d", j.wid, res.needs, res.neededBy), rec)
 				}
+				if j.sc.LiveReindex {
+					r.Eval(1)
+					r.Note("schedule_modes", "live-reindex")
+					r.Note("live_reindex_kv", j.kv)
+					if !reindexErrOK(j.w, res.reErr) {
+						r.Violation("live-reindex-error", fmt.Sprintf("world %s: Reindex() on the live index after this schedule: %v", j.wid, res.reErr), rec)
+					} else if a, b := diff(j.want, res.reDump); len(a)+len(b) > 0 {
+						kind := "?"
+						if len(a) > 0 {
+							kind = rowKind(a[0])
+						} else {
+							kind = rowKind(b[0])
+						}
+						r.Violation("live-reindex-differs/"+kind, fmt.Sprintf("world %s (%v): Reindex() on the live index after this schedule: rows only in the dependency-order index:%s; rows only after Reindex():%s", j.wid, j.w.FeatureList(), show(a), show(b)), rec)
+					} else if j.w.Dangling == nil && (res.reNeeds != 0 || res.reNeededBy != 0) {
+						r.Violation("stale-pending/live-reindex", fmt.Sprintf("world %s: complete set re-indexed but needs=%d neededBy=%d", j.wid, res.reNeeds, res.reNeededBy), rec)
+					} else if res.reReady > len(j.w.Bad) {
+						r.Violation("ready-not-run/live-reindex", fmt.Sprintf("world %s: %d blobs ready to reindex but never run after Reindex()", j.wid, res.reReady), rec)
+					}
+				}
 				mu.Lock()
-				if sampled < 4 && mode != "sequential" {
+				if mode != "sequential" && sampledMode[mode] < 1 && sampled < 5 {
+					sampledMode[mode]++
 					sampled++
 					r.Sample(rec)
 				}
